@@ -6,13 +6,13 @@
   * A histogram is an association list `List (Key × Nat)` (Key = list of integers, one per axis); that
     keys never repeat is a theorem (C19_nodup), not part of the type.  Counts are `Nat`: the C++ stores
     `double`, which is exact for counts below 2^53.
-  * `scale` (`ch = ch / bin_width`, carried out in std::size_t and converted back to the channel
-    type) and the two expressions of the dense pre-fill loop come from the GENERATED file Gen/C19.lean.
+  * `scale` (`ch = static_cast<channel_t>(ch / static_cast<std::ptrdiff_t>(bin_width))`, signed division since fix
+    1570f66) and the two expressions of the dense pre-fill loop come from the GENERATED file Gen/C19.lean.
   * `fill` follows histogram::fill: mask test, per-channel scaling, key from the selected channels
     (cast to the key type `int`), limit test through `tuple_compare` (component-wise ≤ on both sides),
     `operator[](key)++`.
-  * `fillHistogram` follows fill_histogram: clear unless accumulate; dense pre-fill (1-D only) which
-    ASSIGNS 0 to every key of the range -- also when accumulating (known finding).
+  * `fillHistogram` follows fill_histogram: clear unless accumulate; dense pre-fill (1-D only) which creates
+    the keys of the range with `+= 0` (since fix 1570f66; it used to ASSIGN 0 and lose accumulated counts).
 -/
 import GilVerif.Gen.C19
 
@@ -94,12 +94,12 @@ def fill (a : FillArgs) (h : Hist) (pixels : List (List Int × Bool)) : Hist :=
 def prefillLoop (bw upper : Int) : Nat → Int → Hist → Hist × Bool
   | 0, _, h => (h, false)                       -- fuel exhausted (never happens under the theorem's hypotheses)
   | fuel + 1, i, h =>
-    if prefill_cond_int i upper bw ≠ 0 then prefillLoop bw upper fuel (i + bw) (h.set [prefill_key_int i bw] 0)
+    if prefill_cond_int i upper bw ≠ 0 then prefillLoop bw upper fuel (i + bw) (h.add [prefill_key_int i bw] 0)   -- `hist(i / width) += 0`
     else (h, true)
 
 def prefill (bw lower upper : Int) (h : Hist) : Hist :=
   let r := prefillLoop bw upper ((upper - lower).toNat + 1) lower h
-  r.1.set [prefill_key_int upper bw] 0
+  r.1.add [prefill_key_int upper bw] 0
 
 /-- fill_histogram -/
 def fillHistogram (a : FillArgs) (accumulate sparse : Bool) (h : Hist) (pixels : List (List Int × Bool)) : Hist :=
